@@ -51,6 +51,7 @@ struct TCtx {
   uint64_t rnd;
   int alone;
   int spawned, joined;
+  long incs[MAXM];
 };
 
 static struct TCtx ctx[2][MAXT];
@@ -308,6 +309,7 @@ static void exec_node(struct TCtx* c, struct Node* n) {
       maybe_yield(c);
       cell[m] = v + 1;
       insec[m] = 0;
+      c->incs[m]++;
       break;
     }
     case 'S': if (!c->alone) do_spawn(c, n->a); break;
@@ -457,8 +459,14 @@ static void one_case(char* line) {
         if (led[ph][t][i].ndtor == 0) unfin++;
       }
     }
-  P(" ## X: overlap=%d miss=%d maxpar=%d cross=%d double=%d unfin=%d rootkill=%d stale=%d unjoined=%d",
-    n_overlap + a_overlap * 0, n_miss, n_maxpar, n_cross, n_double, unfin, n_rootkill, n_stale, unjoined);
+  char lost[256]; size_t ln = 0; lost[0] = 0;
+  for (int m = 0; m < nmutex; m++) {
+    long sum = 0;
+    for (int t = 0; t < nthreads; t++) sum += ctx[1][t].incs[m];
+    if (sum != cell[m]) ln += (size_t)snprintf(lost + ln, sizeof lost - ln, "%sc%d:%ld-of-%ld", ln ? "," : "", m, cell[m], sum);
+  }
+  P(" ## X: lost=%s overlap=%d miss=%d maxpar=%d cross=%d double=%d unfin=%d rootkill=%d stale=%d unjoined=%d",
+    ln ? lost : "0", n_overlap + a_overlap * 0, n_miss, n_maxpar, n_cross, n_double, unfin, n_rootkill, n_stale, unjoined);
 }
 
 int main(int argc, char** argv) {
